@@ -5,6 +5,7 @@ locals / enclosing functions / module bindings / star imports of other repositor
 builtins.
 """
 import ast
+import re
 import builtins
 import os
 
@@ -219,9 +220,84 @@ def _cm_aliases(tree):
     return out
 
 
+def _is_yield_stmt(st):
+    return isinstance(st, ast.Expr) and isinstance(st.value, ast.Yield)
+
+
+def _has_yield(node):
+    return any(isinstance(x, (ast.Yield, ast.YieldFrom)) for x in ast.walk(node))
+
+
+def _body_jumps(body):
+    stack = list(body)
+    while stack:
+        n = stack.pop()
+        if isinstance(n, (ast.Return, ast.Break, ast.Continue)):
+            return True
+        if isinstance(n, (ast.FunctionDef, ast.AsyncFunctionDef, ast.Lambda, ast.ClassDef)):
+            continue
+        stack.extend(ast.iter_child_nodes(n))
+    return False
+
+
+def _cm_place(stmts, inner, jumps, tag):
+    """the statements of a @contextmanager generator with its one ``yield`` statement replaced by ``inner`` (the
+    binding of the target and the body of the with block), or None when the generator is not of a supported shape:
+    the yield is reached through straight-line statements, ``with`` blocks and ``try`` bodies only, so it runs exactly
+    once; what follows it runs on every exit of the block that is not an exception.  Exceptions of the block arrive
+    at the yield, so handlers / finally clauses / enclosing with blocks of the generator apply to the block as
+    written."""
+    idx = [i for i, st in enumerate(stmts) if _has_yield(st)]
+    if len(idx) != 1:
+        return None
+    i = idx[0]
+    st, pre, post = stmts[i], stmts[:i], stmts[i + 1:]
+    for x in pre + post:
+        if not isinstance(x, (ast.Assign, ast.AugAssign, ast.Expr, ast.Pass)):
+            return None
+        if any(isinstance(y, (ast.Lambda, ast.Await, ast.NamedExpr)) for y in ast.walk(x)):
+            return None
+    innermost = False
+    if _is_yield_stmt(st):
+        mid = list(inner)
+        innermost = True
+    elif isinstance(st, ast.With):
+        if any(_has_yield(it) for it in st.items):
+            return None
+        new = _cm_place(st.body, inner, jumps, tag)
+        if new is None:
+            return None
+        st.body = new
+        mid = [st]
+    elif isinstance(st, ast.Try):
+        rest = st.handlers + st.orelse + st.finalbody
+        if any(_has_yield(x) for x in rest) or _body_jumps(rest):
+            return None
+        if st.orelse and jumps:
+            return None
+        new = _cm_place(st.body, inner, jumps, tag)
+        if new is None:
+            return None
+        st.body = new
+        mid = [st]
+    else:
+        return None
+    if post and jumps:
+        if not innermost:
+            return None
+        # post runs on every exit of the block except an exception
+        flag = '_cm%d_raised' % tag
+        setf = ast.Assign(targets=[ast.Name(id=flag, ctx=ast.Store())], value=ast.Constant(value=False))
+        hnd = ast.ExceptHandler(type=ast.Name(id='BaseException', ctx=ast.Load()), name=None,
+                                body=[ast.Assign(targets=[ast.Name(id=flag, ctx=ast.Store())], value=ast.Constant(value=True)),
+                                      ast.Raise(exc=None, cause=None)])
+        fin = ast.If(test=ast.UnaryOp(op=ast.Not(), operand=ast.Name(id=flag, ctx=ast.Load())), body=post, orelse=[])
+        return pre + [setf, ast.Try(body=mid, handlers=[hnd], orelse=[], finalbody=[fin])]
+    return pre + mid + post
+
+
 def _gen_cm_spec(fdef, is_method, aliases=('contextmanager',)):
-    """a @contextmanager function of the shape  pre ; yield [value] ; post   or   pre ; try: yield [value] finally: post
-    with straight-line pre/post -> dict, else None"""
+    """a @contextmanager function whose single yield statement is reached exactly once (see _cm_place) -> dict, else None"""
     if not any(ast.unparse(d).split('.')[-1] in aliases for d in fdef.decorator_list) or len(fdef.decorator_list) != 1:
         return None
     a = fdef.args
@@ -235,30 +311,18 @@ def _gen_cm_spec(fdef, is_method, aliases=('contextmanager',)):
     else:
         me = None
     body = [st for st in fdef.body if not (isinstance(st, ast.Expr) and isinstance(st.value, ast.Constant))]
-
-    def is_yield(st):
-        return isinstance(st, ast.Expr) and isinstance(st.value, ast.Yield)
-    idx = [i for i, st in enumerate(body) if is_yield(st) or (isinstance(st, ast.Try) and any(is_yield(x) for x in st.body))]
-    if len(idx) != 1:
+    ys = [x for st in body for x in ast.walk(st) if isinstance(x, (ast.Yield, ast.YieldFrom))]
+    if len(ys) != 1 or not isinstance(ys[0], ast.Yield):
         return None
-    i = idx[0]
-    pre, mid = body[:i], body[i]
-    if is_yield(mid):
-        post, fin, yv = body[i + 1:], False, mid.value.value
-    else:
-        if mid.handlers or mid.orelse or len(mid.body) != 1 or body[i + 1:]:
-            return None
-        post, fin, yv = mid.finalbody, True, mid.body[0].value.value
-    for st in pre + post:
-        if not isinstance(st, (ast.Assign, ast.AugAssign, ast.Expr, ast.Pass)):
-            return None
-        for x in ast.walk(st):
-            if isinstance(x, (ast.Yield, ast.YieldFrom, ast.Lambda, ast.Await, ast.NamedExpr)):
-                return None
-    stored = {x.id for st in pre + post for x in ast.walk(st) if isinstance(x, ast.Name) and isinstance(x.ctx, ast.Store)}
+    if any(isinstance(x, (ast.Global, ast.Nonlocal, ast.FunctionDef, ast.ClassDef)) for st in body for x in ast.walk(st)):
+        return None
+    if _cm_place(_clone(body), [ast.Pass()], False, 0) is None or _body_jumps(body):
+        return None
+    stored = {x.id for st in body for x in ast.walk(st) if isinstance(x, ast.Name) and isinstance(x.ctx, ast.Store)}
+    stored |= {x.name for st in body for x in ast.walk(st) if isinstance(x, ast.ExceptHandler) and x.name}
     if stored & set(params):
         return None
-    return dict(me=me, params=params, pre=pre, post=post, fin=fin, yv=yv, locals=stored, name=fdef.name)
+    return dict(me=me, params=params, body=body, locals=stored, name=fdef.name)
 
 
 def expand_generator_context_managers(tree):
@@ -316,6 +380,12 @@ def expand_generator_context_managers(tree):
                 if sp['me'] is not None and node.id == sp['me']:
                     return ast.copy_location(ast.Name(id='self', ctx=node.ctx), node)
                 return node
+
+            def visit_ExceptHandler(self, node):
+                self.generic_visit(node)
+                if node.name in ren:
+                    node.name = ren[node.name]
+                return node
         out = [Sub().visit(_clone(st)) for st in stmts]
         for st in out:
             for x in ast.walk(st):
@@ -324,17 +394,6 @@ def expand_generator_context_managers(tree):
                 x.end_lineno = getattr(ref, 'end_lineno', ref.lineno)
                 x.end_col_offset = getattr(ref, 'end_col_offset', ref.col_offset)
         return out
-
-    def jumps(body):
-        stack = list(body)
-        while stack:
-            n = stack.pop()
-            if isinstance(n, (ast.Return, ast.Break, ast.Continue)):
-                return True
-            if isinstance(n, (ast.FunctionDef, ast.AsyncFunctionDef, ast.Lambda, ast.ClassDef)):
-                continue
-            stack.extend(ast.iter_child_nodes(n))
-        return False
     used = set()
 
     class Expand(ast.NodeTransformer):
@@ -350,26 +409,17 @@ def expand_generator_context_managers(tree):
                 counter[0] += 1
                 tag = counter[0]
                 args = item.context_expr.args
-                pre = instantiate(sp['pre'], sp, args, node, tag)
-                post = instantiate(sp['post'], sp, args, node, tag)
+                stmts = instantiate(sp['body'], sp, args, node, tag)
+                ystmt = [x for st in stmts for x in ast.walk(st) if _is_yield_stmt(x)][0]
+                bind = []
                 if item.optional_vars is not None:
-                    val = instantiate([ast.Expr(value=sp['yv'])], sp, args, node, tag)[0].value if sp['yv'] is not None else ast.Constant(value=None)
-                    pre.append(ast.Assign(targets=[item.optional_vars], value=val))
-                if sp['fin']:
-                    body = pre + [ast.Try(body=body, handlers=[], orelse=[], finalbody=post or [ast.Pass()])]
-                elif not post:
-                    body = pre + body
-                elif not jumps(body):
-                    body = pre + body + post
-                else:
-                    # post runs on every exit of the block except an exception
-                    flag = '_cm%d_raised' % tag
-                    setf = ast.Assign(targets=[ast.Name(id=flag, ctx=ast.Store())], value=ast.Constant(value=False))
-                    hnd = ast.ExceptHandler(type=ast.Name(id='BaseException', ctx=ast.Load()), name=None,
-                                            body=[ast.Assign(targets=[ast.Name(id=flag, ctx=ast.Store())], value=ast.Constant(value=True)),
-                                                  ast.Raise(exc=None, cause=None)])
-                    fin = ast.If(test=ast.UnaryOp(op=ast.Not(), operand=ast.Name(id=flag, ctx=ast.Load())), body=post, orelse=[])
-                    body = pre + [setf, ast.Try(body=body, handlers=[hnd], orelse=[], finalbody=[fin])]
+                    val = ystmt.value.value if ystmt.value.value is not None else ast.Constant(value=None)
+                    bind = [ast.Assign(targets=[item.optional_vars], value=val)]
+                new = _cm_place(stmts, bind + body, _body_jumps(body), tag)
+                if new is None:
+                    body = [ast.With(items=[item], body=body)]
+                    continue
+                body = new
                 used.add(sp['name'])
                 changed = True
             if not changed:
@@ -397,6 +447,110 @@ def expand_generator_context_managers(tree):
             dropped.append(fn)
     set_parents(tree)
     return dropped
+
+def flatten_single_use_bases(tree, foreign_text=''):
+    """A module-level class B that is nothing but the base of exactly one other class C of the same module (never
+    mentioned otherwise, here or in another module; no super(); no name shared with C; no private-mangled names; plain
+    bases) is merged into C: attribute lookup through the MRO finds the same functions either way.  Returns the names
+    of the merged classes."""
+    merged = []
+    while True:
+        classes = {c.name: c for c in tree.body if isinstance(c, ast.ClassDef)}
+        base_refs = {}
+        base_ids = set()
+        for c in classes.values():
+            for b in c.bases:
+                if isinstance(b, ast.Name) and b.id in classes:
+                    base_refs.setdefault(b.id, []).append(c)
+                    base_ids.add(id(b))
+        done = False
+        for bname, subs in base_refs.items():
+            B = classes[bname]
+            if len(subs) != 1 or subs[0] is B:
+                continue
+            C = subs[0]
+            if B.decorator_list or B.keywords or C.keywords:
+                continue
+            if any(not (isinstance(b, ast.Name) and b.id == 'object') for b in B.bases):
+                continue
+            if len([b for b in C.bases if not (isinstance(b, ast.Name) and b.id == 'object')]) != 1:
+                continue
+            if re.search(r'\b%s\b' % re.escape(bname), foreign_text):
+                continue
+            other = False
+            for n in ast.walk(tree):
+                if isinstance(n, ast.Name) and n.id == bname and id(n) not in base_ids:
+                    other = True
+                elif isinstance(n, ast.Attribute) and n.attr == bname:
+                    other = True
+                elif isinstance(n, ast.Constant) and n.value == bname:
+                    other = True
+                elif isinstance(n, (ast.Global, ast.Nonlocal)) and bname in n.names:
+                    other = True
+            if other:
+                continue
+
+            def defined(cdef):
+                out = set()
+                for st in cdef.body:
+                    if isinstance(st, (ast.FunctionDef, ast.AsyncFunctionDef, ast.ClassDef)):
+                        out.add(st.name)
+                    elif isinstance(st, (ast.Assign, ast.AnnAssign, ast.AugAssign)):
+                        for t in (st.targets if isinstance(st, ast.Assign) else [st.target]):
+                            out |= {x.id for x in ast.walk(t) if isinstance(x, ast.Name)}
+                    elif not (isinstance(st, ast.Pass) or (isinstance(st, ast.Expr) and isinstance(st.value, ast.Constant))):
+                        out.add('*')
+                return out
+            db, dc = defined(B), defined(C)
+            if '*' in db or '*' in dc or (db & dc):
+                continue
+            bad = False
+            for n in list(ast.walk(B)) + list(ast.walk(C)):
+                if isinstance(n, ast.Name) and n.id in ('super', '__class__'):
+                    bad = True
+                ident = n.attr if isinstance(n, ast.Attribute) else n.id if isinstance(n, ast.Name) else \
+                    n.name if isinstance(n, ast.FunctionDef) else None
+                if ident and ident.startswith('__') and not ident.endswith('__'):
+                    bad = True
+            if bad:
+                continue
+            moved = [st for st in B.body if not (isinstance(st, ast.Pass) or (isinstance(st, ast.Expr) and isinstance(st.value, ast.Constant)))]
+            head = [st for st in C.body[:1] if isinstance(st, ast.Expr) and isinstance(st.value, ast.Constant)]
+            C.body = head + moved + C.body[len(head):]
+            C.bases = [b for b in C.bases if not (isinstance(b, ast.Name) and b.id == bname)] or [ast.copy_location(ast.Name(id='object', ctx=ast.Load()), C)]
+            tree.body = [st for st in tree.body if st is not B]
+            merged.append(bname)
+            done = True
+            break
+        if not done:
+            return merged
+
+def specialise_template_methods(tree):
+    """Template methods: a method m of a class B that calls a hook ``self.h(..)`` which direct subclasses of B (re)define is
+    copied into every direct subclass that inherits m, so that per-class analyses see m together with that class's hook.
+    The copy is what the subclass inherits anyway.  -> ['S.m', ...]"""
+    classes = {c.name: c for c in tree.body if isinstance(c, ast.ClassDef)}
+    out = []
+    for B in list(classes.values()):
+        subs = [c for c in classes.values() if any(isinstance(b, ast.Name) and b.id == B.name for b in c.bases) and c is not B]
+        if not subs:
+            continue
+        bmeths = {m.name: m for m in B.body if isinstance(m, ast.FunctionDef)}
+        for m in bmeths.values():
+            if m.decorator_list or not m.args.args:
+                continue
+            me = m.args.args[0].arg
+            if any(isinstance(x, ast.Name) and x.id in ('super', '__class__') for x in ast.walk(m)):
+                continue
+            hooks = {x.func.attr for x in ast.walk(m) if isinstance(x, ast.Call) and isinstance(x.func, ast.Attribute)
+                     and isinstance(x.func.value, ast.Name) and x.func.value.id == me}
+            for S in subs:
+                smeths = {x.name for x in S.body if isinstance(x, ast.FunctionDef)}
+                if m.name in smeths or not (hooks & smeths):
+                    continue
+                S.body.append(_clone(m))
+                out.append('%s.%s' % (S.name, m.name))
+    return out
 
 
 class FuncInfo:
@@ -525,6 +679,8 @@ class Module:
             self.tree = ast.parse(self.src, filename=path)
         except SyntaxError as e:
             raise AnalysisError('cannot parse %s: %s' % (self.relpath, e))
+        self.flattened = flatten_single_use_bases(self.tree, repo.foreign_text(name))
+        self.specialised = specialise_template_methods(self.tree)
         set_parents(self.tree)
         self.expanded = expand_context_manager_classes(self.tree) + expand_generator_context_managers(self.tree)
         self.classes = {}
@@ -615,6 +771,11 @@ class Repo:
         if not os.path.isdir(self.srcdir):
             raise AnalysisError('source directory %s not found' % self.srcdir)
         self.modules = {}
+        self._texts = {}
+        for fn in sorted(os.listdir(self.srcdir)):
+            if fn.endswith('.py') and fn[:-3] not in GENERATED_MODULES:
+                with open(os.path.join(self.srcdir, fn), encoding='utf-8') as fh:
+                    self._texts[fn[:-3]] = fh.read()
         names = list(SRC_MODULES) + (list(GENERATED_MODULES) if with_generated else [])
         for name in names:
             p = os.path.join(self.srcdir, name + '.py')
@@ -627,6 +788,10 @@ class Repo:
                     and fn != '__init__.py':
                 self.modules[fn[:-3]] = Module(self, fn[:-3], os.path.join(self.srcdir, fn))
         self._mro_cache = {}
+
+    def foreign_text(self, name):
+        """the source text of every other hand-written module (used to see whether a name is mentioned elsewhere)"""
+        return '\n'.join(t for n, t in self._texts.items() if n != name)
 
     # -- lookup ---------------------------------------------------------------------------
     def module(self, name):
